@@ -243,6 +243,78 @@ example : NoRestart [.store [0x61] 1 [t0], .store [0x61] 2 [t0], .store [0x62] 3
     (simp only [List.mem_singleton] at hr; subst hr
      unfold InRange t0 tsMod idEpochMillis idTimestampBits; decide)
 
+/-! ## Reads planned with a per-shard zone map (`ORDER BY … LIMIT …`)
+
+The top-k planner hands the dispatcher a map shard ↦ picked zones, computed from **flushed**
+segments only. The theorems below hold for every reachable state, **every split** of each
+shard's events into a flushed prefix and an in-memory suffix (`nfl`), and **every** zone map
+`zm` (any subset of the shards, any zone predicate per shard). -/
+
+/-- A query that carries a zone map is still sent to all `n` shards — a shard that the map
+does not mention is asked too. -/
+theorem C12_plan_fanout_all (n : Nat) (ops : List Op) (nfl : List Nat) (q : Option Ctx)
+    (zm : ZoneMap) : (Tiered.mk (reach n ops) nfl).askedPlan q zm = List.range n := by
+  have hinv : Inv n (reach n ops) := inv_reach n ops
+  show List.range (reach n ops).shards.length = List.range n
+  rw [hinv.len]
+
+/-- A shard absent from the zone map contributes exactly its matching in-memory rows (the
+"empty picked zones" command removes its segment zones, nothing else); a shard in the map
+contributes its matching in-memory rows and the flushed rows inside its picked zones. -/
+theorem C12_plan_shard_contribution (q : Option Ctx) (m : List (Nat × (Ev → Bool))) (i f : Nat)
+    (sh : Shard) :
+    (m.lookup i = none → sh.answerPlan q (some m) i f = (sh.memRows f).filter (qmatches q)) ∧
+    (∀ allowed, m.lookup i = some allowed →
+      sh.answerPlan q (some m) i f = ((sh.segRows f).filter allowed ++ sh.memRows f).filter (qmatches q)) := by
+  constructor
+  · intro h; simp only [Shard.answerPlan, h]
+  · intro allowed h; simp only [Shard.answerPlan, h]
+
+/-- No shard is omitted under a zone map: every matching **in-memory** row of every shard
+reaches the response writer, whatever the map contains (in particular when the row's shard has
+no entry), and nothing arrives that an unplanned read would not deliver. -/
+theorem C12_plan_memory_covered (n : Nat) (ops : List Op) (nfl : List Nat) (q : Option Ctx)
+    (zm : ZoneMap) :
+    (∀ (i : Nat) (sh : Shard) (e : Ev), (reach n ops).shards[i]? = some sh →
+      e ∈ sh.memRows ((Tiered.mk (reach n ops) nfl).flushedOf i) → qmatches q e = true →
+      e ∈ (Tiered.mk (reach n ops) nfl).arrivalsPlan q zm) ∧
+    (∀ e ∈ (Tiered.mk (reach n ops) nfl).arrivalsPlan q zm, e ∈ (reach n ops).arrivals q) := by
+  constructor
+  · intro i sh e hi he hq
+    rw [mem_arrivalsPlan_iff]
+    exact ⟨i, sh, hi, answerPlan_mem q zm i _ sh e he hq⟩
+  · intro e he
+    rw [mem_arrivalsPlan_iff] at he
+    obtain ⟨i, sh, hi, he⟩ := he
+    obtain ⟨h1, h2⟩ := answerPlan_subset q zm i _ sh e he
+    exact (mem_arrivals_iff _ q e).mpr ⟨i, sh, hi, h1, h2⟩
+
+/-- Union under a zone map. Let `needed` single out rows (e.g. the true first `n+m` rows in the
+requested order). If the map lets every needed **flushed** row through (the planner's own
+obligation — C10), then every needed row that an unplanned read over all shards delivers is
+delivered under the map as well: in-memory rows need no entry in the map. -/
+theorem C12_plan_sound_complete (n : Nat) (ops : List Op) (nfl : List Nat) (q : Option Ctx)
+    (zm : ZoneMap) (needed : Ev → Prop)
+    (hsound : ∀ (i : Nat) (sh : Shard) (e : Ev), (reach n ops).shards[i]? = some sh →
+      e ∈ sh.segRows ((Tiered.mk (reach n ops) nfl).flushedOf i) → needed e → ZoneMapAllows zm i e) :
+    ∀ e ∈ (reach n ops).arrivals q, needed e → e ∈ (Tiered.mk (reach n ops) nfl).arrivalsPlan q zm := by
+  intro e he hn
+  obtain ⟨i, sh, hi, hev, hq⟩ := (mem_arrivals_iff _ q e).mp he
+  rw [mem_arrivalsPlan_iff]
+  refine ⟨i, sh, hi, ?_⟩
+  rcases mem_seg_or_mem sh ((Tiered.mk (reach n ops) nfl).flushedOf i) e hev with h | h
+  · exact answerPlan_seg q zm i _ sh e h hq (hsound i sh e hi h hn)
+  · exact answerPlan_mem q zm i _ sh e h hq
+
+/-- Non-vacuity: two shards; shard 0 holds a flushed row and is in the map, shard 1 holds an
+in-memory row only and is absent from the map — its row still arrives. -/
+example :
+    let t : Tiered := ⟨reach 2 [.store [0x62] 7 [t0], .store [0x61] 3 [t0]], [1, 0]⟩
+    t.sys.shards.map (fun sh => sh.events.map Ev.key) = [[7], [3]] ∧
+    (t.arrivalsPlan none (some [(0, fun _ => true)])).map Ev.key = [7, 3] ∧
+    (t.arrivalsPlan none (some [(0, fun _ => false)])).map Ev.key = [3] := by
+  decide +kernel
+
 /-! ## Non-vacuity -/
 
 /-- A history with three contexts on three shards, a restart between STOREs to the same
